@@ -4,6 +4,7 @@
   positive by `Params.ValidateBasic`) and every operation sequence.
 -/
 import DymVerif.Lemmas.CoreRolesS
+import DymVerif.Lemmas.CorePunish
 namespace DymVerif.C07
 open DymVerif DymVerif.Core DymVerif.Core.Roles
 
@@ -275,6 +276,53 @@ theorem successor_fresh (p : Params) (hp : 0 < p.noticePeriod) (ops : List Op) (
     (hq : getSeq (run p ops) a = some q) : q.notice = none :=
   (run_roles p hp ops).core.succFresh r hr a hs q hq
 
+-- ---------------------------------------------------------------- the standalone governance punishment
+
+/-- a `PunishSequencerProposal` that does not come from the governance authority is rejected and
+    changes nothing -/
+theorem punish_requires_authority (s : St) (a : Addr) (rw : Option Addr) :
+    (step s (.punish false a rw)).2 = some .unauthorized ∧ (step s (.punish false a rw)).1 = s := by
+  constructor <;> rfl
+
+/-- **punish_keeps_roles** — an accepted standalone `PunishSequencerProposal` (x/sequencer's legacy gov
+    route → `PunishSequencer`; unlike the punishment inside a fraud proposal there is NO fork) came from
+    the governance authority and changes no role at all, whatever the state: every rollapp record —
+    proposer, successor, revisions, states, liveness clock — is literally unchanged, and so are the
+    notice queue, the hub time and the parameters; the punished sequencer's record keeps its rollapp, its
+    bonded status, its opt-in flag, its notice time and its dishonor, and its bond is exactly 0; every
+    other sequencer record is unchanged.  In particular **a punished proposer stays proposer — with
+    bond 0** (and a punished successor stays successor). -/
+theorem punish_keeps_roles (s s' : St) (au : Bool) (a : Addr) (rw : Option Addr)
+    (h : apply s (.punish au a rw) = .ok s') :
+    au = true ∧ s'.ras = s.ras ∧ s'.nq = s.nq ∧ s'.t = s.t ∧ s'.h = s.h ∧ s'.p = s.p ∧
+    (∃ q, getSeq s a = some q ∧ getSeq s' a = some { q with tokens := 0 }) ∧
+    (∀ b, b ≠ a → getSeq s' b = getSeq s b) := by
+  obtain ⟨hau, hp⟩ := punishProposal_ok (show punishProposal s au a rw = .ok s' from h)
+  obtain ⟨q, _, fr, _⟩ := punish_exact hp
+  exact ⟨hau, fr.ras, fr.nq, fr.t, fr.h, fr.p, punish_record hp, punish_others hp⟩
+
+/-- **trace form**: in every reachable state, after an accepted `PunishSequencerProposal` against the
+    current proposer `a` of a rollapp, `a` is still the proposer of that rollapp (the same record `r`,
+    same successor), still a bonded sequencer of it, and its bond is 0. -/
+theorem punished_proposer_stays_proposer (p : Params) (hp : 0 < p.noticePeriod) (ops : List Op)
+    (au : Bool) (a : Addr) (rw : Option Addr) (r : Rollapp) (hr : r ∈ (run p ops).ras)
+    (hpr : r.proposer = some a) (hacc : (step (run p ops) (.punish au a rw)).2 = none) :
+    r ∈ (run p (ops ++ [.punish au a rw])).ras ∧
+    ∃ q, getSeq (run p (ops ++ [.punish au a rw])) a = some q ∧ q.tokens = 0 ∧ q.bonded = true ∧
+      q.rollapp = r.id := by
+  have hrun : run p (ops ++ [.punish au a rw]) = (step (run p ops) (.punish au a rw)).1 := by
+    unfold run; rw [List.foldl_append]; rfl
+  rw [hrun]
+  unfold step at hacc ⊢
+  cases h : apply (run p ops) (.punish au a rw) with
+  | error e => rw [h] at hacc; cases hacc
+  | ok s' =>
+    simp only
+    obtain ⟨_, hras, _, _, _, _, ⟨q, hq, hq'⟩, _⟩ := punish_keeps_roles _ _ au a rw h
+    obtain ⟨q0, hq0, hb, hro⟩ := (run_roles p hp ops).core.prop r hr a hpr
+    rw [hq] at hq0; injection hq0 with hq0; subst hq0
+    exact ⟨by rw [hras]; exact hr, _, hq', rfl, hb, hro⟩
+
 -- ---------------------------------------------------------------- non-vacuity and the role of the parameter validation
 
 def exParams : Params where
@@ -320,6 +368,16 @@ def exKick : List Op := [.createRollapp 0 9 10, .fund 1 100, .fund 2 100, .fund 
 example : (let s := run { exParams with kickThr := 0 } exKick
     (s.ras.map fun r => (r.proposer, r.successor), s.seqs.map fun q => (q.addr, q.bonded, q.optedIn))) =
     ([(some 2, none)], [(1, false, false), (2, true, true), (3, true, false)]) := by decide
+
+/-- a `PunishSequencerProposal` against the proposer 1 (bond 10, rewardee 7): 1 stays proposer with bond 0,
+    still bonded and opted in; half went to the rewardee, half was burned; without the authority nothing happens -/
+def exPunished : St := run exParams (exKick.dropLast ++ [.punish true 1 (some 7)])
+example : (exPunished.ras.map fun r => (r.proposer, r.successor)) = [(some 1, none)] ∧
+    (exPunished.seqs.map fun q => (q.addr, q.bonded, q.optedIn, q.tokens)) =
+      [(1, true, true, 0), (2, true, true, 10), (3, true, true, 30)] ∧
+    getBal exPunished.bal 7 = 5 ∧ exPunished.burned = 5 ∧ exPunished.modBal = 40 := by decide
+example : (step (run exParams exKick.dropLast) (.punish false 1 (some 7))).2 = some .unauthorized ∧
+    (step (run exParams exKick.dropLast) (.punish true 5 none)).2 = some .unknownSeq := by decide
 
 /-- The hypothesis `0 < noticePeriod` (enforced by the parameter validation of the real module) is
     needed: with a zero notice period the proposer's notice is elapsed the moment it is served, its
